@@ -402,6 +402,103 @@ class VLock:
         self.release()
 
 
+class VRLock(VLock):
+    """re-entrant: the owning task may acquire again; released when the count returns to zero"""
+
+    def __init__(self, sched, name="rlock"):
+        VLock.__init__(self, sched, name)
+        self.count = 0
+
+    def acquire(self, blocking=True, timeout=-1):
+        if self.owner is not None and self.owner is self.s.cur():
+            self.s.yield_point("lock.acquire")
+            self.count += 1
+            return True
+        ok = VLock.acquire(self, blocking, timeout)
+        if ok:
+            self.count = 1
+        return ok
+
+    def release(self):
+        if self.owner is None or self.owner is not self.s.cur():
+            raise RuntimeError("cannot release un-acquired lock")
+        self.count -= 1
+        if self.count == 0:
+            VLock.release(self)
+
+
+class VSemaphore:
+    def __init__(self, sched, value=1, bounded=False):
+        self.s = sched
+        self.value = value
+        self.initial = value
+        self.bounded = bounded
+
+    def acquire(self, blocking=True, timeout=None):
+        self.s.yield_point("sem.acquire")
+        if self.value > 0:
+            self.value -= 1
+            return True
+        if not blocking:
+            return False
+        if self.s.block_until(lambda: self.value > 0, timeout, "semaphore"):
+            self.value -= 1
+            return True
+        return False
+
+    def release(self, n=1):
+        if self.bounded and self.value + n > self.initial:
+            raise ValueError("Semaphore released too many times")
+        self.value += n
+        self.s.yield_point("sem.release")
+
+    __enter__ = acquire
+
+    def __exit__(self, *a):
+        self.release()
+
+
+class VCondition:
+    def __init__(self, sched, lock=None):
+        self.s = sched
+        self.lock = lock if lock is not None else VRLock(sched, "condition")
+        self.tickets = 0
+        self.acquire, self.release = self.lock.acquire, self.lock.release
+
+    def __enter__(self):
+        self.lock.acquire()
+        return self
+
+    def __exit__(self, *a):
+        self.lock.release()
+
+    def wait(self, timeout=None):
+        mine = self.tickets
+        saved = getattr(self.lock, "count", 1)
+        for _ in range(saved):
+            self.lock.release()
+        ok = self.s.block_until(lambda: self.tickets > mine, timeout, "condition")
+        for _ in range(saved):
+            self.lock.acquire()
+        return ok
+
+    def wait_for(self, predicate, timeout=None):
+        end = None if timeout is None else self.s.now + timeout
+        while not predicate():
+            left = None if end is None else end - self.s.now
+            if left is not None and left <= 0:
+                break
+            self.wait(left)
+        return predicate()
+
+    def notify(self, n=1):
+        self.tickets += 1            # (every waiter that started before this call is released: a superset of what
+        self.s.yield_point("condition.notify")   # threading.Condition guarantees, never fewer wake-ups)
+
+    notify_all = notify
+    notifyAll = notify
+
+
 class VEvent:
     def __init__(self, sched):
         self.s = sched
@@ -523,7 +620,30 @@ class VThreading:
         return VLock(self.s)
 
     def RLock(self):
-        raise NotImplementedError("RLock is not used by bromelia")
+        return VRLock(self.s)
+
+    def Semaphore(self, value=1):
+        return VSemaphore(self.s, value)
+
+    def BoundedSemaphore(self, value=1):
+        return VSemaphore(self.s, value, bounded=True)
+
+    def Condition(self, lock=None):
+        return VCondition(self.s, lock)
+
+    def Timer(self, interval, function, args=None, kwargs=None):
+        s = self.s
+
+        def run():
+            s.sleep(interval)
+            function(*(args or ()), **(kwargs or {}))
+        return Task(s, "timer", run, (), None, True)
+
+    def get_ident(self):
+        return id(self.s.cur())
+
+    def main_thread(self):
+        return self.s.tasks[0] if self.s.tasks else None
 
     def Event(self):
         return VEvent(self.s)
